@@ -703,6 +703,8 @@ pub fn run_batch<P: Property>(p: &P, opts: &Opts) -> BatchReport {
         .collect();
     let done = std::sync::atomic::AtomicBool::new(false);
     let worker_died = std::sync::atomic::AtomicBool::new(false);
+    // wall-clock diagnostics only (never part of a digest or a verdict)
+    let slowest_ms = AtomicU64::new(0);
     let hang_ms: u64 = std::env::var("PKGSIM_HANG_MS").ok().and_then(|s| s.parse().ok()).unwrap_or(3000);
     std::thread::scope(|s| {
         let mut handles = Vec::new();
@@ -710,6 +712,7 @@ pub fn run_batch<P: Property>(p: &P, opts: &Opts) -> BatchReport {
             let slots = &slots;
             let next = &next;
             let merged = &merged;
+            let slowest_ms = &slowest_ms;
             handles.push(std::thread::Builder::new().stack_size(RUN_STACK).spawn_scoped(s, move || {
                 let mut acc: Acc<P::Sc> = Acc::new();
                 let slot = &slots[w];
@@ -724,15 +727,19 @@ pub fn run_batch<P: Property>(p: &P, opts: &Opts) -> BatchReport {
                         slot.1.store(run, Ordering::Relaxed);
                         slot.2.store(0, Ordering::Relaxed);
                         slot.0.store(t0.elapsed().as_millis() as u64 + 1, Ordering::Release);
+                        let t_run = std::time::Instant::now();
                         let out = exec_one(p, &sc, false);
                         slot.0.store(0, Ordering::Release);
+                        slowest_ms.fetch_max(t_run.elapsed().as_millis() as u64, Ordering::Relaxed);
                         record(p, &mut acc, run, 0, &sc, out);
                         if !opts.no_sweep {
                             for (i, s2) in p.sweep(&sc, run, opts.tier).into_iter().enumerate() {
                                 slot.2.store(i as u64 + 1, Ordering::Relaxed);
                                 slot.0.store(t0.elapsed().as_millis() as u64 + 1, Ordering::Release);
+                                let t_run = std::time::Instant::now();
                                 let out = exec_one(p, &s2, false);
                                 slot.0.store(0, Ordering::Release);
+                                slowest_ms.fetch_max(t_run.elapsed().as_millis() as u64, Ordering::Relaxed);
                                 record(p, &mut acc, run, i as u64 + 1, &s2, out);
                             }
                         }
@@ -1104,7 +1111,7 @@ pub fn run_batch<P: Property>(p: &P, opts: &Opts) -> BatchReport {
     }
     if !opts.quiet {
         println!(
-            "pkgsim {} done: evaluations={} (sweeps {}) distinct_schedules={} steps={} faults_fired={} wall={:.1}s batch_digest={:016x} max_work_ratio={:.3}",
+            "pkgsim {} done: evaluations={} (sweeps {}) distinct_schedules={} steps={} faults_fired={} wall={:.1}s batch_digest={:016x} max_work_ratio={:.3} slowest_run_ms={}",
             id,
             tot.evaluations,
             tot.sweep_evaluations,
@@ -1113,7 +1120,8 @@ pub fn run_batch<P: Property>(p: &P, opts: &Opts) -> BatchReport {
             tot.faults.values().sum::<u64>(),
             wall,
             tot.batch_digest,
-            (tot.max_work_ratio_milli as f64) / 1000.0
+            (tot.max_work_ratio_milli as f64) / 1000.0,
+            slowest_ms.load(Ordering::Relaxed)
         );
         if opts.tier == Tier::Thorough && !zero_probes.is_empty() {
             println!("warning: probes never hit: {}", zero_probes.join(", "));
